@@ -30,12 +30,13 @@ class Ob:
     """
 
     def __init__(self, name, kind, bound, functions, tiers=('quick', 'thorough'), fn=None, harness=None,
-                 func=None, timeout=60, replay=None, classify=None, stubs=(), twin=True, expect=None, parts=1):
+                 func=None, timeout=60, replay=None, classify=None, stubs=(), twin=True, expect=None, parts=1, unblock=False):
         self.name, self.kind, self.bound, self.functions = name, kind, bound, list(functions)
         self.tiers, self.fn, self.harness, self.func = tiers, fn, harness, func
         self.timeout, self.replay, self.classify, self.stubs = timeout, replay, classify, list(stubs)
         self.twin = twin
         self.expect = expect
+        self.unblock = unblock   # allow file-system side effects (scratch files under /tmp, removed by the harness)
         self.parts = parts     # CrossHair condition split into `parts` disjoint sub-conditions (env VERIF_PART), run concurrently
 
 
@@ -147,11 +148,13 @@ def _make_twin(harness, func, node, tmpdir):
     return path
 
 
-def _crosshair(target, timeout, per_path=None, part=None):
+def _crosshair(target, timeout, per_path=None, part=None, unblock=False):
     cmd = [CROSSHAIR, 'check', '--extra_plugin', os.path.join(HOME, 'engine', 'plugin.py'), '--report_all', '-v',
            '--per_condition_timeout', str(timeout)]
     if per_path:
         cmd += ['--per_path_timeout', str(per_path)]
+    if unblock:
+        cmd += ['--unblock=EVERYTHING']
     cmd.append(target)
     env = dict(os.environ)
     env['PYTHONPATH'] = HOME + os.pathsep + os.path.join(HOME, 'harness') + os.pathsep + env.get('PYTHONPATH', '')
@@ -212,7 +215,7 @@ def _run_ch(prop, ob, tmpdir):
     path, line, node = _harness_target(ob.harness, ob.func)
     if ob.parts > 1:
         with ThreadPoolExecutor(max_workers=ob.parts) as ex:
-            runs = list(ex.map(lambda k: _crosshair('%s:%d' % (path, line), ob.timeout, part=k), range(ob.parts)))
+            runs = list(ex.map(lambda k: _crosshair('%s:%d' % (path, line), ob.timeout, part=k, unblock=ob.unblock), range(ob.parts)))
         out = '\n'.join(o for o, _ in runs)
         st = dict(wall=max(s_['wall'] for _, s_ in runs), paths=sum(s_['paths'] for _, s_ in runs), unknown=sum(s_['unknown'] for _, s_ in runs),
                   realized=sum(s_['realized'] for _, s_ in runs), tree=' | '.join(s_['tree'] for _, s_ in runs)[:600],
@@ -225,7 +228,7 @@ def _run_ch(prop, ob, tmpdir):
             verdicts.append(v)
         st['part_verdicts'] = verdicts
     else:
-        out, st = _crosshair('%s:%d' % (path, line), ob.timeout)
+        out, st = _crosshair('%s:%d' % (path, line), ob.timeout, unblock=ob.unblock)
     res = dict(verdict='unknown', note='', wall=st['wall'], paths=st['paths'], unknown_paths=st['unknown'],
                realized=st['realized'], tree=st['tree'], queries=st['paths'])
     msgs = []
@@ -252,6 +255,9 @@ def _run_ch(prop, ob, tmpdir):
             model = dict(zip(names, args))
             model.update(kwargs)
             res['model'] = model
+    elif ob.parts > 1 and st.get('exit') not in (0, 1):
+        res['verdict'] = 'error'
+        res['note'] = 'crosshair exited with %s in at least one part: %s' % (st.get('exit'), ' | '.join(st.get('stderr_tail', []))[-600:])
     elif ob.parts > 1 and not (all(v in ('confirmed', 'empty') for v in st['part_verdicts']) and 'confirmed' in st['part_verdicts']):
         res['note'] = 'parts: %s (search not exhausted in %ss CPU per part; %d paths explored, none failed)' % (','.join(st['part_verdicts']), ob.timeout, st['paths'])
     elif any('Confirmed over all paths' in m for m in infos):
@@ -267,7 +273,7 @@ def _run_ch(prop, ob, tmpdir):
     # reachability twin
     if ob.twin and res['verdict'] in ('unsat', 'unknown'):
         tw = _make_twin(ob.harness, ob.func, node, tmpdir)
-        tout, tst = _crosshair(tw, min(ob.timeout, 60))
+        tout, tst = _crosshair(tw, min(ob.timeout, 60), unblock=ob.unblock)
         res['reach'] = 'sat' if ': error: false when calling twin(' in tout else 'not shown (%s)' % ' | '.join(tst.get('stderr_tail', []))[-200:]
         res['wall'] += tst['wall']
     elif res['verdict'] == 'sat':
